@@ -338,6 +338,15 @@ def build(spec, hooks=True):
         run_schedule(b)
         b.spec = saved
         b.last.external_torque = external_torque
+    for op_ in spec.get('schedule', []):
+        if op_['op'] == 'bystander' and op_['spec'].get('prebuilt', True):
+            # the other model (same part names, other numbers) and its solver exist before this model's first run
+            try:
+                b.bystander = build(op_['spec'], hooks=False)
+                b.bystander.next_op = 0
+            except Exception:
+                b.bystander_failures = getattr(b, 'bystander_failures', 0) + 1
+            break
     b.is_probe = False
     if b.stop is None and spec.get('probe'):
         b.stop = make_probe(b)
@@ -582,6 +591,16 @@ def run_schedule(b, on_capture=None):
             apply_ic(b, op.get('units'))
         elif o == 'newsolver':
             b.solver = g().Solver(powertrain=b.pt)
+        elif o == 'remount':
+            # the driven part of this (already simulated) powertrain is ALSO mounted on a second motor and assembled there;
+            # the first powertrain is fixed at its construction and keeps working on its own element tuple
+            try:
+                mb = make_element(dict(b.spec['motor'], name='motor b'))
+                g().ut.add_fixed_joint(master=mb, slave=b.elements[1])
+                b.second_pt = g().Powertrain(motor=mb)
+                b.remounts = getattr(b, 'remounts', 0) + 1
+            except Exception as ex:
+                b.mid_schedule_failures = getattr(b, 'mid_schedule_failures', []) + [('remount:' + type(ex).__name__, str(ex)[:200])]
         elif o == 'bystander':
             # ANOTHER, independent model alive in the same process is built (first time) and advanced by one of its own
             # operations between two operations of this one: models must not influence each other
